@@ -15,15 +15,17 @@ import (
 // its own 25-line reader. It shares no code with pkg/rsl.
 
 type walked struct {
-	ID      string
-	Kind    string // reference | annotation | propagation
-	Ref     string
-	Target  string
-	IDs     []string
-	Skip    bool
-	Number  uint64
-	HasNum  bool
-	Parents int
+	ID            string
+	Kind          string // reference | annotation | propagation
+	Ref           string
+	Target        string
+	IDs           []string
+	Skip          bool
+	Number        uint64
+	HasNum        bool
+	Parents       int
+	UpstreamRepo  string
+	UpstreamEntry string
 }
 
 func parseWalked(id, msg string, parents int) (walked, error) {
@@ -57,6 +59,10 @@ func parseWalked(id, msg string, parents int) (walked, error) {
 			w.Target = v
 		case "entryID":
 			w.IDs = append(w.IDs, v)
+		case "upstreamRepository":
+			w.UpstreamRepo = v
+		case "upstreamEntryID":
+			w.UpstreamEntry = v
 		case "skip":
 			w.Skip = v == "true"
 		case "number":
